@@ -161,8 +161,8 @@ def canon(v):
         return "False"
     if isinstance(v, int):
         return str(int(v))
-    if isinstance(v, (bytes, bytearray)):
-        return hexb(v)
+    if isinstance(v, (bytes, bytearray, memoryview)):
+        return hexb(bytes(v))
     if isinstance(v, str):
         return "q" + v
     if isinstance(v, (list, tuple)) and type(v) not in BY_TYPE:
